@@ -19,7 +19,9 @@ checks = []
 na = []
 for pid in ids:
     c = None
-    if os.path.exists(os.path.join(ROOT, "checks", pid + ".py")):
+    # only checks the lead has verified (listed in checks/READY) are claimed
+    ready = set(open(os.path.join(ROOT, "checks", "READY")).read().split())
+    if pid in ready and os.path.exists(os.path.join(ROOT, "checks", pid + ".py")):
         c = getattr(importlib.import_module(pid), "META", None)
     if c:
         checks.append({
